@@ -13,6 +13,10 @@ ASSUME = [
 
 def _task(payload):
     name, spec, opts, norm, tags = payload
+    opts = dict(opts)
+    if isinstance(name, tuple):  # (name, {extra opts})
+        name, extra = name
+        opts.update(extra)
     import time
     t0 = time.time()
     r = e2.explore(spec, opts, norm=norm)
@@ -29,7 +33,7 @@ def _task(payload):
             viols.append((t, m, h))
         else:
             other[t] = other.get(t, 0) + 1
-    return {"name": name, "spec": spec, "states": r.states, "transitions": r.transitions, "runs": r.runs,
+    return {"name": name, "opts": opts, "pop_orders": getattr(r, "pop_orders", 0), "spec": spec, "states": r.states, "transitions": r.transitions, "runs": r.runs,
             "capped": r.capped, "depth": r.max_depth, "viols": viols, "other": other, "kinds": r.kinds,
             "samples": r.samples[:1], "secs": round(dt_, 2), "nviol": sum(1 for t, _, _ in r.violations if t in tags)}
 
@@ -39,11 +43,30 @@ def run(prop, tier, *, tags=None, norm=False, opts=None, specs=None, extra=None)
     opts = dict(opts or {})
     if tier == "quick":
         opts.setdefault("fail_combos", "few")
-    specs = specs if specs is not None else (e2fam.quick_specs() if tier == "quick" else e2fam.thorough_specs())
-    res = common.pmap(_task, [(n, s, opts, norm, tags) for n, s in specs], chunksize=1)
+    if specs is None:
+        specs = list(e2fam.quick_specs() if tier == "quick" else e2fam.thorough_specs())
+        # the same plans built in other orders (sources created first / registry.add after the whole plan exists)
+        var = [(n, s) for n, s in specs if e2fam.has_registered_dependency(s) and (tier != "quick" or n != "fam2")]
+        for o in ("sources-first", "adds-late"):
+            specs += [((n, {"order": o}), s) for n, s in var if tier != "quick" or o == "sources-first" or not n.startswith("fam")]
+        # every pop order of the 'random' scheduler, each cut at every operation
+        pops = [(n, s) for n, s in specs if isinstance(n, str) and (n in e2fam.POPS_QUICK if tier == "quick" else n != "fam3")]
+        specs += [((n, {"pops": True, "fail_combos": "few"}), s) for n, s in pops]
+        if tier != "quick":
+            specs += [((n, {"pops": True, "order": "sources-first", "fail_combos": "few"}), s) for n, s in pops if e2fam.has_registered_dependency(s)]
+    # largest first (better load balance); VERIF_SEED rotates ties only - the explored set is seed independent
+    def cost(item):
+        n, sp = item
+        extra = n[1] if isinstance(n, tuple) else {}
+        timed = sum(1 for nd in sp if nd["kind"] in e2.TIMED)
+        return -((4 if extra.get("pops") else 1) * (timed ** 2) * len(sp))
+    import random as _random
+    _random.Random(common.seed()).shuffle(specs)
+    specs.sort(key=cost)
+    res = common.pmap(_task, [(n, s, opts, norm, tags) for n, s in specs], chunksize=1, shuffle=False)
     viols = []
     notes = []
-    tot = {"states": 0, "transitions": 0, "runs": 0}
+    tot = {"states": 0, "transitions": 0, "runs": 0, "pop_orders": 0}
     kinds = {}
     capped = False
     samples = []
@@ -63,7 +86,8 @@ def run(prop, tier, *, tags=None, norm=False, opts=None, specs=None, extra=None)
         for t, m, h in r["viols"]:
             key = f"{e2.spec_str(r['spec'])} :: {m[:80]}"
             viols.append(common.Violation(prop, key, f"[{t}] plan {e2.spec_str(r['spec'])}: {m}; history {h}",
-                                          {"engine": "E2", "spec": r["spec"], "history": h, "norm": norm, "dry": bool(opts.get("dry"))}))
+                                          {"engine": "E2", "spec": r["spec"], "history": h, "norm": norm, "dry": bool(opts.get("dry")),
+                                           "order": r["opts"].get("order", "topo")}))
         for t, n in r["other"].items():
             notes.append((t, f"{n} message(s) on plan {e2.spec_str(r['spec'])}", None))
     cov = {
@@ -71,12 +95,15 @@ def run(prop, tier, *, tags=None, norm=False, opts=None, specs=None, extra=None)
         "traces_validated_against_impl": tot["runs"],
         "real_uberjob_run_calls": tot["runs"],
         "plans": len(specs), "plans_with_more_than_2_states": nontrivial,
+        "pop_orders_enumerated": tot["pop_orders"],
+        "plan_build_orders": sorted({r["opts"].get("order", "topo") for r in res}),
         "events_by_kind": kinds, "max_bfs_depth": maxd,
         "fixpoint_reached_for_every_plan": not capped, "exhaustive": not capped,
         "samples": samples or [{"plan": e2.spec_str(specs[0][1])}],
         "rule": ("for every plan of the family: BFS over canonical store states (time ranks + correctness bit per store) to a fixpoint under the event "
                  "alphabet RUN(output x fresh_time gap), FAILRUN(every operation index x {exception/max_errors 0, exception/max_errors None, death}), "
-                 "UPDATE(source), DELETE(store); every transition executes the real uberjob.run on a freshly built plan/registry; "
+                 "UPDATE(source), DELETE(stored value); plans are additionally built in other node/registry orders, and for selected plans every pop order of the 'random' scheduler "
+                 "(one worker, all draws enumerated) is executed and cut at every operation; every transition executes the real uberjob.run on a freshly built plan/registry; "
                  "states = canonical states summed over plans, transitions = events applied"),
     }
     slow = sorted(res, key=lambda r: -r["secs"])[:3]
@@ -88,7 +115,8 @@ def run(prop, tier, *, tags=None, norm=False, opts=None, specs=None, extra=None)
 
 def replay(prop, rep, tags=None):
     tags = set(tags or [prop])
-    msgs = e2.replay_history(rep["spec"], rep["history"], norm=rep.get("norm", False), do_dry=rep.get("dry", False), verbose=True)
+    msgs = e2.replay_history(rep["spec"], rep["history"], norm=rep.get("norm", False), do_dry=rep.get("dry", False), verbose=True,
+                             order=rep.get("order", "topo"))
     for t, m in msgs:
         print(f"ORACLE[{t}]: {m}")
     return [m for t, m in msgs if t in tags]
